@@ -10,6 +10,6 @@ PROP = dict(
                  "crypto/rand pinned per run with cryptotest.SetGlobalRandom; math/rand seeded",
                  "the in-tree server never exceeds the limits the client advertised"],
     level_text="Exhaustive enumeration of (advertised-limit value x boundary scenario x user Config) on real endpoints in virtual time: generated transport-parameter lists vary one limit at a time over {absent, 0, small, Config default -1/0/+1, large}; the in-tree server, a conformant peer, is scripted to use each advertised limit (read off the wire by the independent observer) up to its boundary; the client must stay error-free and all advertised credit must be usable. All 7 built-in fingerprints run every scenario.",
-    level_note="Trusted: the in-tree server as the conformant peer that exercises the limits; mc/lib/wireobs for the advertised values; windows are exercised up to 8 MB; connection ID issuance is bounded by the in-tree server cap of 6 (limits 7 and 8 are covered at component level by C16).",
+    level_note="Trusted: the in-tree server as the conformant peer that exercises the limits; mc/lib/wireobs for the advertised values; windows are exercised up to 8 MB; connection ID issuance by the in-tree server is bounded by its cap of 6 and never uses Retire Prior To; the cids scenario therefore also runs, for the limit read off the wire, an exhaustive in-order search on a real connIDManager configured as u_connection.go does (every history of NEW_CONNECTION_ID with any Retire Prior To that keeps the peer within the limit, handshake completion and rotation, up to sequence number limit+3; mc/c12/c12_export_test.go); reordered and duplicate frames are C16's domain.",
     technique="exhaustive limit-value x boundary-scenario x Config enumeration on real endpoints in virtual time",
 )
